@@ -68,7 +68,57 @@ fn cmd_check(id: &str, tier: Tier) -> i32 {
     }
     let known = load_known();
     let mut total = Stats::default();
-    let _ = &known;
+    // replay tier: saved regression cases of this property (fixed findings, seeded changes)
+    let mut replayed = 0u64;
+    let reg_dir = vcore::runner::verif_root().join("regressions");
+    if let Ok(rd) = std::fs::read_dir(&reg_dir) {
+        let mut files: Vec<_> = rd.filter_map(|e| e.ok()).map(|e| e.path()).collect();
+        files.sort();
+        for f in files {
+            let name = f.file_name().and_then(|n| n.to_str()).unwrap_or("").to_string();
+            if !name.starts_with(&format!("{id}-")) || !name.ends_with(".json") {
+                continue;
+            }
+            let text = std::fs::read_to_string(&f).unwrap_or_default();
+            let Ok(v) = serde_json::from_str::<serde_json::Value>(&text) else { continue };
+            let stage_name = v["stage"].as_str().unwrap_or("main");
+            let profile = v["profile"].as_str().unwrap_or("release");
+            if profile != profile_name() {
+                // debug-profile cases are replayed by the debug binary
+                let st = std::process::Command::new(debug_binary()).args(["replay", f.to_str().unwrap()]).output();
+                replayed += 1;
+                if let Ok(o) = st {
+                    if o.status.code() == Some(1) {
+                        println!("{}", String::from_utf8_lossy(&o.stdout));
+                        println!("VIOLATION property={id} replay={}", f.display());
+                        return 1;
+                    }
+                }
+                continue;
+            }
+            let Some(stage) = stages.iter().find(|s| s.prop.stage() == stage_name).or(stages.first()) else { continue };
+            vcore::run::install_panic_hook();
+            let rep = match v.get("case").filter(|c| !c.is_null()) {
+                Some(c) => match serde_json::from_value::<vcore::minimize::StructCase>(c.clone()) {
+                    Ok(sc) => stage.prop.eval_struct(&sc),
+                    Err(_) => continue,
+                },
+                None => {
+                    let tape: Vec<u16> = serde_json::from_value(v["tape"].clone()).unwrap_or_default();
+                    stage.prop.eval(&tape)
+                }
+            };
+            replayed += 1;
+            total.evaluations += rep.evaluations;
+            if let Some(fl) = rep.failure {
+                if match_known(&known, id, &fl.signature).is_none() {
+                    println!("--- regression case fails again ({}):\n{}", fl.signature, fl.detail);
+                    println!("VIOLATION property={id} replay={}", f.display());
+                    return 1;
+                }
+            }
+        }
+    }
     let mut rules = vec![];
     let mut per_stage = serde_json::Map::new();
     for stage in &stages {
@@ -156,7 +206,7 @@ fn cmd_check(id: &str, tier: Tier) -> i32 {
             "search-depth labels come from resolvo's tracing events and are used only to classify cases".into(),
             "absence of counterexamples among generated cases is not a proof".into(),
         ],
-        extra: serde_json::json!({ "stages": per_stage }),
+        extra: serde_json::json!({ "stages": per_stage, "regression_cases_replayed": replayed }),
     };
     write_evidence(&meta, &total, start.elapsed().as_secs_f64());
     for (k, n) in &total.known {
